@@ -1,3 +1,4 @@
+import json
 import urllib
 
 from . import packet
@@ -22,9 +23,9 @@ class Payload:
         if jsonp_index is not None:
             encoded_payload = '___eio[' + \
                               str(jsonp_index) + \
-                              ']("' + \
-                              encoded_payload.replace('"', '\\"') + \
-                              '");'
+                              '](' + \
+                              json.dumps(encoded_payload) + \
+                              ');'
         return encoded_payload
 
     def decode(self, encoded_payload):
